@@ -1,3 +1,4 @@
 import BB.Model
 import BB.Generated.Tables
 import BB.Props.Tables
+import BB.Props.C01
